@@ -475,7 +475,7 @@ Lemma clean_loop_ok io fl genfile : forall names w,
   exists w', clean_loop io fl genfile names w = (Ok tt, w').
 Proof.
   induction names as [|n r IH]; intros w Hio Hf; cbn [clean_loop]; [eauto|].
-  destruct (join_dir (fl_dir fl) n =? genfile); [now apply IH|].
+  destruct (n =? genfile); [now apply IH|].
   destruct (assoc n (w_dir w)) as [e|] eqn:Ha; [|now apply IH].
   pose proof (files_only_assoc _ _ _ Hf Ha) as He. destruct e; try discriminate.
   destruct (is_aio_line line1); [now apply IH|].
